@@ -2,6 +2,7 @@ import AffVerif.Judge.Trees
 import AffVerif.Judge.Simplex
 import AffVerif.Model.Schema
 import AffVerif.Model.Reduce
+import AffVerif.Model.Distill
 import AffVerif.Check.Cert
 /-!
 Judge for operation histories on `AffTree<2>` (C03 C04 C05 C06 C07 C08 C11).
@@ -54,7 +55,12 @@ def takeFirst {γ : Type} (p : γ → Bool) : List γ → Option (γ × List γ)
   | x :: xs => if p x then some (x, xs) else (takeFirst p xs).map (fun r => (r.1, x :: r.2))
 
 def lpOracle : LPOracle OState Q := fun s poly obj =>
-  match takeFirst (fun e => e.poly == poly && e.obj == obj) s.log with
+  -- exact match first; on inexact data (rounded f64 products) the closest-looking question is taken
+  let exact := takeFirst (fun e => e.poly == poly && e.obj == obj) s.log
+  let found := match exact with
+    | some r => some r
+    | none => takeFirst (fun e => cmpAff e.poly poly != Cmp.different && cmpVec e.obj obj != Cmp.different) s.log
+  match found with
   | some (e, rest) => (e.ret, { s with log := rest })
   | none => (.error, { s with missing := s.missing + 1 })
 
@@ -108,7 +114,9 @@ def margin : Q := mkRat 1 1000000
 
 /-- a point of the polytope shrunk by `margin` in every row: witness that the set is non-empty by a margin -/
 def pointInShrunk (n : Nat) (path : List (Aff Q)) : Option (List Q) :=
-  let p := shift (Poly.intersectionN n path) (-margin)
+  let p0 := shift (Poly.intersectionN n path) (-margin)
+  -- "non-empty by a margin" is meant at the scale of the data: inside the box [−10⁶, 10⁶]ⁿ
+  let p := Poly.intersection p0 (Poly.hypercube n 1000000)
   match findPoint p.mat p.bias n with
   | some x => if Poly.memb p x then some x else none
   | none => none
@@ -171,6 +179,11 @@ def schemaTree : P (PT Q) := do
   | "hard_tanh" => let n ← pNat; let r ← pNat; let lo ← pNum; let hi ← pNum; pure (Sch.partialHardTanh n r lo hi)
   | "hard_shrink" => let n ← pNat; let r ← pNat; let l ← pNum; pure (Sch.partialHardShrink n r l)
   | "threshold" => let n ← pNat; let r ← pNat; let t ← pNum; let v ← pNum; pure (Sch.partialThreshold n r t v)
+  | "hard_sigmoid" =>
+    let n ← pNat; let r ← pNat; let three ← pNum; let sixth ← pNum; let half ← pNum
+    pure (Sch.partialHardSigmoid n r three sixth half)
+  | "argmax" => let n ← pNat; pure (Sch.argmax n (fun k => (k : Q)))
+  | "class_char" => let n ← pNat; let c ← pNat; pure (Sch.classChar n c)
   | _ => throw s!"unknown schema '{name}'"
 
 inductive Op where
@@ -283,6 +296,30 @@ def isPruning : Op → Bool
   | .arithTree _ _ => true
   | _ => false
 
+/-- distance of the intermediate values of the network at `x` to the nearest breakpoint / tie -/
+def netMargin (consts : NetConsts Q) : List (Layer Q) → List Q → Q → Q
+  | [], _, m => m
+  | l :: ls, x, m =>
+    let here : Q := match l with
+      | .linear _ => m
+      | .relu i => min m (absQ (x.getD i 0))
+      | .leakyRelu i _ => min m (absQ (x.getD i 0))
+      | .hardTanh i => min m (min (absQ (x.getD i 0 - 1)) (absQ (x.getD i 0 + 1)))
+      | .hardSigmoid i => min m (min (absQ (x.getD i 0 - 3)) (absQ (x.getD i 0 + 3)))
+      | .argmax =>
+        (List.range x.length).foldl (fun acc i => (List.range x.length).foldl (fun acc' j =>
+          if i < j then min acc' (absQ (x.getD i 0 - x.getD j 0)) else acc') acc) m
+      | .classChar c => (List.range x.length).foldl (fun acc i =>
+          if i != c then min acc (absQ (x.getD i 0 - x.getD c 0)) else acc) m
+    netMargin consts ls (l.eval consts x) here
+
+/-- the f64 constant `1./6.` (hard sigmoid) is the only non-dyadic number the generators use; once it has
+    entered, the crate's arithmetic is rounded and an input whose exact evaluation comes within 1e-9 of a
+    breakpoint or tie is "within rounding distance of a breakpoint", which the statement of C01 excludes -/
+def nearBreakpoint (consts : NetConsts Q) (layers : List (Layer Q)) (x : List Q) : Bool :=
+  layers.any (fun l => match l with | .hardSigmoid _ => true | _ => false) &&
+    netMargin consts layers x 1 ≤ mkRat 1 1000000000
+
 def judgeHist : P Verdict := do
   let _tag ← tok
   let tol ← pNum
@@ -318,7 +355,7 @@ def judgeHist : P Verdict := do
   let mut inexact := false
   let mut nontrivial := false
   let mut everFaulted := false   -- C06 speaks about histories under a correct solver
-  while !(← atEnd) do
+  while (← peek?) == some ";" do
     expect ";"
     let (op, opname) ← pOp
     tag opname
@@ -428,6 +465,45 @@ def judgeHist : P Verdict := do
     evPrev := ev'
     step := step + 1
   if nontrivial || step ≥ 3 then tag "nt"
+  -- C01 trailer: the network the history distils, the real builder's result
+  if (← peek?) == some "NET" then
+    let _ ← tok
+    let dim ← pNat
+    let nl ← pNat
+    let consts : NetConsts Q := ⟨3, ratOfMantExp 6004799503160661 (-55), (1 : Q) / 2, fun k => (k : Q)⟩
+    let layers ← pMany nl (do
+      let k ← tok
+      match k with
+      | "linear" => pure (Layer.linear (← pAff))
+      | "relu" => pure (Layer.relu (← pNat))
+      | "leaky" => let i ← pNat; let a ← pNum; pure (Layer.leakyRelu i a)
+      | "hard_tanh" => pure (Layer.hardTanh (← pNat))
+      | "hard_sigmoid" => pure (Layer.hardSigmoid (← pNat))
+      | "argmax" => pure Layer.argmax
+      | "class_char" => pure (Layer.classChar (← pNat))
+      | _ => throw s!"bad layer '{k}'")
+    tag s!"layers-{nl}"
+    if layers.any (fun l => match l with | .argmax => true | .classChar _ => true | _ => false) then tag "head"
+    let bt ← tok
+    if bt == "buildpanic" then
+      return .propfail "[C01] afftree_from_layers panicked on a dimension-consistent network"
+    let same ← pNat
+    let evB ← pEvals npts
+    let _ := dim
+    -- specification: inside the precondition the network's output, outside undefined
+    for (x, e) in pts.zip evB do
+      let want := (PT.eval t0 x).map (netEval consts layers)
+      match e with
+      | .panic => return .propfail s!"[C01] evaluate panics on the distilled tree at {showVec x}"
+      | .val got =>
+        match optVecCmp want got with
+        | .same => pure ()
+        | .close => inexact := true
+        | .different =>
+          if nearBreakpoint consts layers ((PT.eval t0 x).getD x) then inexact := true
+          else return .propfail s!"[C01] at input {showVec x} the network gives {showOptVec want} but the distilled tree evaluates to {showOptVec got}"
+    if same != 1 then
+      return .diverge "afftree_from_layers: the builder's tree differs from the step-by-step replay with the same public operations (the model of the builder is this sequence of steps)"
   pure (if inexact then .inexact "values" else .ok)
 
 end AV.Judge
